@@ -220,6 +220,8 @@ def decision_tree(
                     block(st.body)
                     block(st.orelse)
                     block(st.finalbody)
+                elif isinstance(st, ast.Match):
+                    raise Unsupported("match statement with structural patterns inside a decided region", st)
                 elif isinstance(st, ast.With):
                     rebind({n.id for it in st.items if it.optional_vars is not None for n in ast.walk(it.optional_vars) if isinstance(n, ast.Name)})
                     block(st.body)
